@@ -4,7 +4,7 @@ import warnings
 import numpy as np
 
 KINDS = ["UCCSD", "UCC1", "UCC3", "UpCCGSD1", "UpCCGSD2", "UpCCGSD3", "UpCCGSD4", "UCCGD", "HEA", "QMF", "QCC", "ILC",
-         "VSQS1", "VSQS2", "VSQSnav", "VSQSnav2", "pUCCD", "ADAPT", "VarCircuit"]
+         "VSQS1", "VSQS2", "VSQSnav", "VSQSnav2", "VSQSnav0", "pUCCD", "ADAPT", "VarCircuit"]
 EXCITATION_BASED = {"UCCSD", "UCC1", "UCC3", "UpCCGSD1", "UpCCGSD2", "UpCCGSD3", "UpCCGSD4", "UCCGD", "pUCCD", "ADAPT"}
 PARTICLE_CONSERVING = {"UCCSD", "UCC1", "UCC3", "UpCCGSD1", "UpCCGSD2", "UpCCGSD3", "UCCGD", "ADAPT"}
 
@@ -55,6 +55,14 @@ def make(kind, mol, mapping="JW", utd=False, pr=None):
             return ag.ILC(mol, mapping, utd, max_ilc_gens=3)
         if kind in ("VSQS1", "VSQS2"):
             return ag.VSQS(mol, mapping, utd, intervals=3, time=0.7, trotter_order=1 if kind == "VSQS1" else 2)
+        if kind == "VSQSnav0":
+            # a navigator Hamiltonian obtained as a product: cancelling cross terms leave a Pauli word with an exactly zero coefficient
+            from tangelo.toolboxes.operators import QubitOperator
+            from tangelo.toolboxes.qubit_mappings.mapping_transform import get_qubit_number
+            nq = get_qubit_number(mapping, mol.n_active_sos)
+            base = QubitOperator(((0, "X"),), 0.5) + QubitOperator(((0, "Z"),), 0.5) + QubitOperator(((nq - 1, "X"),), 0.3)
+            nav = base * base
+            return ag.VSQS(mol, mapping, utd, intervals=3, time=0.6, h_nav=nav, trotter_order=1 if nq % 2 else 2)
         if kind in ("VSQSnav", "VSQSnav2"):
             from tangelo.toolboxes.operators import QubitOperator
             from tangelo.toolboxes.qubit_mappings.mapping_transform import get_qubit_number
